@@ -109,9 +109,14 @@ def run_case(files, enzyme, reverse, concatenate, prefix, np_seed, d=None):
         paths.append(p)
         targets.extend((h.split(" ")[0], s) for h, s in f["records"])
     out = str(d / "out.fasta")
-    np.random.seed(np_seed)
+    if np_seed is not None:
+        np.random.seed(np_seed)
     arg = paths[0] if len(paths) == 1 else paths
-    ret = make_decoys(arg, out, decoy_prefix=prefix, enzyme=enzyme, reverse=reverse, concatenate=concatenate)
+    _CALLS[0] += 1
+    try:
+        ret = make_decoys(arg, out, decoy_prefix=prefix, enzyme=enzyme, reverse=reverse, concatenate=concatenate)
+    except Exception as e:         # the statement promises an output file for any FASTA input
+        return targets, [("raised-" + type(e).__name__, "make_decoys raised %s: %s" % (type(e).__name__, e))]
     problems = []
     if str(ret) != out:
         problems.append(("return-value", "make_decoys returned %r" % (ret,)))
@@ -124,7 +129,11 @@ def run_case(files, enzyme, reverse, concatenate, prefix, np_seed, d=None):
     n = len(targets)
     want = 2 * n if concatenate else n
     if len(mine) != want:
-        problems.append(("record-count", "%d records written, %d expected" % (len(mine), want)))
+        expected_names = {nm for nm, _ in targets} | {prefix + nm for nm, _ in targets}
+        stray = [nm for nm, _ in mine if nm not in expected_names]
+        problems.append(("records-of-no-target" if stray else "record-count",
+                         "%d records written, %d expected; names that belong to no target: %s"
+                         % (len(mine), want, stray[:4])))
         return targets, problems
     if concatenate:
         if mine[:n] != targets:
@@ -175,11 +184,58 @@ def hand_cases():
         [{"records": [("t1", "ACDEFGKLMNPQR")], "trailing_newline": False},
          {"records": [("u1", "STVWYKACDEFGHK")], "trailing_newline": False}],
         [{"records": [("t1", "ACDEFGHILMNPQSTVWY" * 5 + "K" + "ACDEFGHILMNPQSTVWY" * 4)], "width": 80}],
-    ]
+    ] + header_text_cases()
+
+
+# header texts: a record starts at a '>' that is the FIRST character of a line and nowhere else; the name ends at the
+# first blank, the rest of the line is free text
+DESCRIPTIONS = [
+    "Isomerase (S)->(R) converting enzyme",
+    ">",
+    "a>b",
+    ">leading mark",
+    "trailing mark>",
+    ">> two >> marks >",
+    "x >y >z K>R",
+    "OS=Homo sapiens OX=9606 GN=ALB PE=1 SV=2",
+    "[Fragment] {ECO:0000255|HAMAP-Rule:MF_00001}",
+    "50% identical; 3'-5' exonuclease #2 \\ \"quoted\" * + ? $ ^ & ~ `",
+    "tab\tinside, comma",
+    " two  blanks and one at the end ",
+    "ACDEFGK MNPQR",
+]
+NAME_TAILS = ["|P00001|CONV_HUMAN", "->b", ">c", ";1", "=1", "#1", "(n)", ":1", "/1", "\\1", "'1", ",1", ".1", "[1]"]
+
+
+def header_text_cases():
+    seq = ["MACDEFGKPLMNQRSTVWYK", "ACDEFGKLMNPQR", "STVWYKACDEFGHK", "LMNPK", "", "KRKACDEFGHILMNPQSTVWYR"]
+    out = []
+    # one file per description: the marked record first / in the middle / last, with and without a final newline
+    for i, descr in enumerate(DESCRIPTIONS):
+        marked = ("sp|P%05d|CONV_HUMAN %s" % (i, descr), seq[i % 4])
+        plain = [("t%d" % k, seq[(i + k) % len(seq)]) for k in range(2)]
+        pos = i % 3
+        recs = plain[:pos] + [marked] + plain[pos:]
+        out.append([{"records": recs, "trailing_newline": i % 2 == 0, "width": [None, 7, 60][i % 3]}])
+    # every record of every file carries a description with '>'; several files, the last record of a file marked, empty
+    # sequences next to marked headers, files with/without a final newline
+    for tn in ([True, True, True], [False, False, False], [True, False, True], [False, True, False]):
+        files = []
+        for f in range(3):
+            recs = [("f%d_%d%s %s" % (f, k, NAME_TAILS[(3 * f + k) % len(NAME_TAILS)] if k else "",
+                                       DESCRIPTIONS[(f + 2 * k) % 7]), seq[(f + k) % len(seq)]) for k in range(3)]
+            files.append({"records": recs, "trailing_newline": tn[f], "width": [None, 5, None][f]})
+        out.append(files)
+    # names with punctuation (a '>' inside a name is not at the beginning of a line either)
+    out.append([{"records": [("n%d%s" % (k, t), seq[k % 4]) for k, t in enumerate(NAME_TAILS)]}])
+    out.append([{"records": [("n%d%s %s" % (k, t, DESCRIPTIONS[k % len(DESCRIPTIONS)]), seq[k % 4])
+                             for k, t in enumerate(NAME_TAILS)], "trailing_newline": False, "width": 10}])
+    return out
 
 
 def random_cases(seed, n):
     rng = random.Random(seed)
+    hrng = random.Random(seed * 7919 + 18)      # header texts are drawn from a stream of their own
     out = []
     for c in range(n):
         files = []
@@ -189,6 +245,13 @@ def random_cases(seed, n):
             for _ in range(rng.randint(1, 5)):
                 kind = rng.choice(["full", "full", "rich", "rich", "nosite", "konly", "ragged"])
                 header = "p%d_%d" % (c, k) + rng.choice(["", "", " descr text", " OS=Homo sapiens GN=X"])
+                u = hrng.random()
+                if u < 0.3:
+                    header = header.split(" ")[0] + " " + hrng.choice(DESCRIPTIONS)
+                elif u < 0.4:
+                    header = header.split(" ")[0] + hrng.choice(NAME_TAILS) + " " + hrng.choice(DESCRIPTIONS)
+                elif u < 0.45:
+                    header = header.split(" ")[0] + hrng.choice(NAME_TAILS)
                 recs.append((header, _rand_seq(rng, kind)))
                 k += 1
             files.append({"records": recs, "width": rng.choice([None, None, 60, 70, 80, 13]),
@@ -207,7 +270,9 @@ def check_files(tier, seed):
                "_parse_protein",
                "%d hand-made + %d random (seed %d) FASTA inputs of 1-3 files x 1-5 records (sequence lengths 0..211 "
                "incl. 0, 69-72, 139-141; no-site, all-K, K/R-rich and 20-letter alphabets; input line widths "
-               "none/7/13/60/70/80; with/without trailing newline; headers with descriptions) x enzymes %s x "
+               "none/5/7/10/13/60/70/80; with/without trailing newline; headers without / with descriptions, the "
+               "descriptions (and some names) holding '>' - also doubled, first or last in the description - and other "
+               "punctuation, tabs, repeated blanks) x enzymes %s x "
                "(reverse=True | reverse=False under np.random.seed in %s) x concatenate in {T,F} x prefix in "
                "{decoy_, rev_}" % (n_hand, n_random, seed, ENZYMES, seeds),
                "per target: decoy named prefix+name, same length, same multiset, peptide termini fixed, identical "
@@ -259,10 +324,156 @@ def check_exhaustive(tier, seed):
     return ck
 
 
+# ------------------------------------------------------------------ histories of calls in one process
+HISTORY_MODES = ["same", "different", "overlap"]
+
+
+def history_specs(seed, per_pattern):
+    """every order of reverse=True/False over 2 and 3 calls, `per_pattern` variants each (inputs, enzymes, reseeding)"""
+    rng = random.Random(seed * 104729 + 18)
+    specs = []
+    patterns = [list(t) for n in (2, 3) for t in itertools.product([False, True], repeat=n)]
+    for v in range(per_pattern):
+        for flags in patterns:
+            n = len(flags)
+            same_enzyme = rng.random() < 0.6
+            e0 = rng.choice(ENZYMES)
+            specs.append({"hseed": rng.randrange(10 ** 6), "flags": flags,
+                          "mode": HISTORY_MODES[(v + len(specs)) % 3],
+                          "enzymes": [e0 if same_enzyme else rng.choice(ENZYMES) for _ in range(n)],
+                          "concat": [rng.random() < 0.5 for _ in range(n)],
+                          "prefix": [rng.choice(["decoy_", "rev_"]) for _ in range(n)],
+                          "np_seed": seed + v, "reseed": [rng.random() < 0.5 for _ in range(n)]})
+    return specs
+
+
+def history_inputs(spec):
+    """the FASTA inputs of the calls of one history: 'same' = every call reads the same files, 'different' = every
+    call reads files of its own, 'overlap' = files of its own plus one file shared by all calls"""
+    rng = random.Random(spec["hseed"])
+
+    def file_set(tag):
+        files = []
+        k = 0
+        for _ in range(rng.choice([1, 1, 2])):
+            recs = []
+            for _ in range(rng.randint(1, 3)):
+                alphabet = rng.choice([AA, AA, AA, "KRPAC" + AA, "AKRP"])
+                seq = "".join(rng.choice(alphabet) for _ in range(rng.choice([12, 20, 35, 50, 71, 100, 141])))
+                recs.append(("%s_%d%s" % (tag, k, rng.choice(["", " descr text", " (S)->(R) >x"])), seq))
+                k += 1
+            files.append({"records": recs, "width": rng.choice([None, 60, 13]),
+                          "trailing_newline": rng.random() < 0.7})
+        return files
+
+    n = len(spec["flags"])
+    shared = file_set("s")
+    if spec["mode"] == "same":
+        return [shared] * n
+    own = [file_set("c%d" % k) for k in range(n)]
+    if spec["mode"] == "different":
+        return own
+    return [own[k] + shared[:1] if k % 2 == 0 else shared[:1] + own[k] for k in range(n)]
+
+
+def _interior_lengths(files, enzyme):
+    """interior lengths of the peptides that a permutation can change (>= 2 different residues inside)"""
+    return {b - a - 2 for f in files for _, s in f["records"] for a, b in pieces(s, enzyme)[1]
+            if len(set(s[a + 1:b - 1])) >= 2}
+
+
+def run_history(spec):
+    """runs the calls of one history one after the other IN THIS PROCESS and checks every output completely.
+    Returns one (nontrivial, problems) per call. spec['only'] = k runs call k alone (same input, same arguments)."""
+    inputs = history_inputs(spec)
+    only = spec.get("only")
+    res = []
+    seen = set()
+    with scratch("c18h_") as d:
+        for k, reverse in enumerate(spec["flags"]):
+            if only is not None and k != only:
+                continue
+            sub = d / ("call%d" % k)
+            sub.mkdir()
+            first = k == 0 or only is not None
+            np_seed = spec["np_seed"] + k if (first or spec["reseed"][k]) else None
+            _, problems = run_case(inputs[k], spec["enzymes"][k], reverse, spec["concat"][k], spec["prefix"][k],
+                                   np_seed, sub)
+            lens = _interior_lengths(inputs[k], spec["enzymes"][k])
+            res.append((k > 0 and bool(lens & seen), problems))
+            seen |= lens
+    return res
+
+
+_CALLS = [0]       # make_decoys calls made by THIS process (run_case counts them)
+
+
+def _fresh_processes(specs):
+    """run_history(spec) for every spec, each in a process of its own whose interpreter has imported mokapot and has
+    not called it: forked from this process while it is still in that state, otherwise from a newly started one"""
+    import multiprocessing as mp
+    if not specs:
+        return []
+    if _CALLS[0]:
+        import os
+        import subprocess
+        import sys
+        code = ("import json, sys; import harness.c18 as m; "
+                "print('C18HISTORY' + json.dumps(m._fresh_processes(json.load(sys.stdin))))")
+        env = dict(os.environ, PYTHONPATH=os.pathsep.join(x for x in sys.path if x))
+        r = subprocess.run([sys.executable, "-c", code], input=json.dumps(specs), capture_output=True, text=True,
+                           env=env, check=True)
+        line = [x for x in r.stdout.splitlines() if x.startswith("C18HISTORY")][-1]
+        return [[(nt, [tuple(p) for p in ps]) for nt, ps in res] for res in json.loads(line[len("C18HISTORY"):])]
+    import mokapot.parsers.fasta  # noqa: F401  (imported before forking, so that the children need not)
+    with mp.get_context("fork").Pool(min(12, len(specs)), maxtasksperchild=1) as pool:
+        return pool.map(run_history, specs, chunksize=1)
+
+
+def check_history(tier, seed):
+    specs = history_specs(seed, 4 if tier == "quick" else 20)
+    ck = Check("make_decoys_call_history", "mokapot.parsers.fasta.make_decoys, _shuffle_proteins",
+               "%d histories (seed %d): every order of reverse=True/False over 2 and 3 consecutive make_decoys calls "
+               "x %d variants; each history runs in a process of its own that has imported mokapot and never called it "
+               "(forked from the harness process before its first make_decoys call, otherwise from a newly started "
+               "interpreter), without restart between the calls of the history; "
+               "the calls read the same files / files of their own / files of their own plus a shared file (1-3 files "
+               "x 1-3 proteins of 12..141 residues, peptide interior lengths shared between the calls), enzymes %s "
+               "equal or changing between the calls, concatenate and prefix drawn per call, numpy generator seeded "
+               "before the first call and before a later call or left in the state the earlier call left it"
+               % (len(specs), seed, len(specs) // 12, ENZYMES),
+               "the complete per-call oracle of make_decoys_files (names, target records, length, multiset, termini, "
+               "sites, reversed interiors, re-reading) is applied to the output of EVERY call of the history; a case is "
+               "one (history, call); non-trivial = a second or third call that has a peptide whose interior holds >= 2 "
+               "different residues and is as long as such an interior of an earlier call of the history; a failing "
+               "later call is run once more alone in such a fresh process: ids 'after-earlier-calls:<id>' = correct "
+               "alone, wrong after the earlier calls")
+    results = _fresh_processes(specs)
+    failing = []
+    for hi, (spec, res) in enumerate(zip(specs, results)):
+        for k, (nontrivial, problems) in enumerate(res):
+            ck.case((hi, k, spec["hseed"], tuple(spec["flags"])), nontrivial=nontrivial)
+            if problems and len(failing) < 8:
+                failing.append((spec, k, problems))
+    alone = _fresh_processes([dict(spec, only=k) for spec, k, _ in failing if k > 0])
+    alone = iter(alone)
+    for spec, k, problems in failing:
+        solo = {c for c, _ in next(alone)[0][1]} if k > 0 else None
+        for case, what in problems:
+            cid = case if solo is None or case in solo else "after-earlier-calls:" + case
+            ck.violation(cid, "call %d of a history with reverse=%s: %s" % (k + 1, spec["flags"], what),
+                         {"history": spec, "call": k})
+    return ck
+
+
 def REPLAY(check_name, violation):
     inp = violation["input"]
     if isinstance(inp, str):
         inp = json.loads(inp)
+    if "history" in inp:
+        res = _fresh_processes([inp["history"]])[0]
+        problems = [p for _, ps in res for p in ps]
+        return {"violated": bool(problems), "detail": problems[:3]}
     if "files" in inp:
         files = [{"records": [tuple(r) for r in f["records"]], "width": f.get("width"),
                   "trailing_newline": f.get("trailing_newline", True)} for f in inp["files"]]
@@ -277,9 +488,14 @@ def REPLAY(check_name, violation):
 if __name__ == "__main__":
     a = args()
     np.random.seed(a.seed)
-    emit([check_files(a.tier, a.seed), check_exhaustive(a.tier, a.seed)],
+    history = check_history(a.tier, a.seed)       # first: its processes are forked from this one while it is unused
+    emit([check_files(a.tier, a.seed), check_exhaustive(a.tier, a.seed), history],
          ["a record's name is the first blank-delimited token of its header; descriptions are not expected to survive",
           "record names are unique and sequences consist of residue letters only (no blanks, '*' or '-')",
           "every input file starts with '>' and holds at least one record",
           "in shuffle mode only what the statement promises is checked (termini, composition, sites), not that the "
-          "decoy differs from the target"])
+          "decoy differs from the target",
+          "a '>' that is not the first character of a line belongs to the header text (description or name) it stands in",
+          "a history of calls = consecutive make_decoys calls of one interpreter that has imported mokapot and done "
+          "nothing else with it; the calls of make_decoys_files / make_decoys_exhaustive all run in the harness "
+          "process itself (there every (input, enzyme) is run with reverse=True first, then shuffled)"])
